@@ -252,6 +252,11 @@ Apply(h, op, v) ==
                       THEN Result(h, Handle(r, FALSE), FALSE)          \* "already in order, nothing to do": the bare argument
                  ELSE LET a == Alloc(h, Obj("list", <<>>, s)) IN Result(a.h, a.v, FALSE)
 
+\* sorting a list whose elements are lists is left out of the menu: asp compares list wrappers with a type assertion
+\* on the right operand only, so whether it works depends on which element the sort happens to put on the left
+Unmodelled(h, op, v) == /\ op \in {"sorted", "sortedrev"} /\ IsRef(v) /\ h[RefOf(v)].kind = "list"
+                        /\ \E i \in 1..Len(Items(h, RefOf(v))) : IsRef(Items(h, RefOf(v))[i])
+
 \* ---------------- machine
 VARIABLES heap, env1, st1, hist, pc2, obs2
 vars == <<sub, heap, env1, st1, hist, pc2, obs2>>
@@ -273,6 +278,7 @@ P1Step(m) ==
           /\ heap' = a.h /\ env1' = [env1 EXCEPT ![m.tgt] = a.v] /\ st1' = "run"
           /\ hist' = Append(hist, [op |-> m.op, tgt |-> m.tgt, via |-> m.via, kind |-> "list"])
      ELSE LET t == TgtVal(heap, env1, m.tgt) IN
+          /\ ~(~t.err /\ Unmodelled(t.h, m.op, t.v))
           /\ hist' = Append(hist, [op |-> m.op, tgt |-> m.tgt, via |-> m.via,
                                    kind |-> IF t.err THEN "none" ELSE KindOf(t.h, t.v)])
           /\ IF t.err THEN heap' = heap /\ env1' = env1 /\ st1' = "err"
